@@ -160,6 +160,16 @@ var (
 	timeType   = reflect.TypeOf(time.Time{})
 )
 
+// float32frombitsOf reads a float32 out of a reflect.Value without converting it to float64 (which would
+// quiet signalling NaNs).
+func float32frombitsOf(v reflect.Value) float32 {
+	if f, ok := v.Interface().(float32); ok {
+		return f
+	}
+
+	return float32(v.Float())
+}
+
 // errUntypable: the tree denotes a value the Go type cannot hold (the model then says Encode fails too).
 type errUntypable struct{ msg string }
 
@@ -168,7 +178,7 @@ func (e errUntypable) Error() string { return "untypable: " + e.msg }
 // toGo builds a Go value of type t from the tree.
 func toGo(s *Schema, tree any, t reflect.Type) (reflect.Value, error) {
 	// non-optional pointers are transparent on the wire
-	if t.Kind() == reflect.Ptr && t != bigPtrType && s.K != "opt" {
+	if t.Kind() == reflect.Ptr && t != bigPtrType && s.K != "opt" && s.K != "eptr" {
 		ev, err := toGo(s, tree, t.Elem())
 		if err != nil {
 			return reflect.Value{}, err
@@ -206,10 +216,11 @@ func toGo(s *Schema, tree any, t reflect.Type) (reflect.Value, error) {
 			if x.Sign() < 0 || x.BitLen() > 32 {
 				return v, errUntypable{"float32 bits"}
 			}
-			v.SetFloat(float64(math.Float32frombits(uint32(x.Uint64()))))
-			// NaN payloads must survive the float64 detour bit for bit
-			if math.Float32bits(float32(v.Float())) != uint32(x.Uint64()) {
-				*(v.Addr().Interface().(*float32)) = math.Float32frombits(uint32(x.Uint64()))
+			// no float64 detour: it would quiet a signalling NaN (the payload must survive bit for bit)
+			f := math.Float32frombits(uint32(x.Uint64()))
+			v.Set(reflect.ValueOf(&f).Elem().Convert(t))
+			if math.Float32bits(float32frombitsOf(v)) != uint32(x.Uint64()) {
+				*(v.Addr().Interface().(*float32)) = f
 			}
 		case reflect.Float64:
 			if x.Sign() < 0 || x.BitLen() > 64 {
@@ -308,7 +319,7 @@ func toGo(s *Schema, tree any, t reflect.Type) (reflect.Value, error) {
 			}
 			v.Field(i).Set(fv)
 		}
-	case "opt":
+	case "opt", "eptr":
 		o, ok := tree.(map[string]any)
 		if !ok {
 			return v, fmt.Errorf("optional expected, got %T", tree)
@@ -375,7 +386,7 @@ func toGo(s *Schema, tree any, t reflect.Type) (reflect.Value, error) {
 // fromGo projects a Go value to its tree.
 func fromGo(s *Schema, v reflect.Value) any {
 	t := v.Type()
-	if t.Kind() == reflect.Ptr && t != bigPtrType && s.K != "opt" {
+	if t.Kind() == reflect.Ptr && t != bigPtrType && s.K != "opt" && s.K != "eptr" {
 		if v.IsNil() {
 			return map[string]any{"nil": t.String()} // matches no model value
 		}
@@ -392,7 +403,7 @@ func fromGo(s *Schema, v reflect.Value) any {
 		case reflect.Int8, reflect.Int16, reflect.Int32, reflect.Int64:
 			return numTree(big.NewInt(v.Int()), nlimbs(s.W))
 		case reflect.Float32:
-			return numTree(new(big.Int).SetUint64(uint64(math.Float32bits(float32(v.Float())))), nlimbs(4))
+			return numTree(new(big.Int).SetUint64(uint64(math.Float32bits(float32frombitsOf(v)))), nlimbs(4))
 		case reflect.Float64:
 			return numTree(new(big.Int).SetUint64(math.Float64bits(v.Float())), nlimbs(8))
 		}
@@ -436,7 +447,7 @@ func fromGo(s *Schema, v reflect.Value) any {
 		}
 
 		return r
-	case "opt":
+	case "opt", "eptr":
 		if v.IsNil() {
 			return map[string]any{"some": false}
 		}
@@ -541,7 +552,7 @@ func norm(s *Schema, tree any) any {
 		}
 
 		return r
-	case "opt":
+	case "opt", "eptr":
 		o, ok := tree.(map[string]any)
 		if !ok {
 			return tree
